@@ -4,6 +4,7 @@ import RR.Proof.DspOla
 import RR.Proof.DspIir
 import RR.Proof.DspDesign
 import RR.Proof.DspFftBlock
+import RR.Proof.DspHilbert
 
 /-!
 # C11 — DSP kernels agree with their mathematical definitions and with each other
@@ -128,6 +129,20 @@ theorem c11_fft_block (cd : Codec R) (taps : List R) (ht : 0 < taps.length) (Xn 
     ∃ B, r.2.1 = B * S + r.1.buf.length ∧ r.1.buf.length < S ∧
       r.2.2 = ((List.range (B * S)).map fun n => convAt taps (Xn.map cd.dec) n).map cd.enc :=
   fft_block_eq_conv cd taps ht Xn sched
+
+/-- **Hilbert transformer block, every schedule, any arithmetic and kernel.** With `Z` = `ntaps` zeros followed
+by the input: however the input is cut into read windows and however much output space each call finds, after `c`
+consumed samples the block has emitted exactly, for every `j < c`, the pair (`Z[j + ntaps/2]`, kernel(taps,
+`Z[j .. j+ntaps]`)) — the input delayed by half the filter next to the filter output (`kernel` = the scalar, AVX
+or portable-SIMD dot product, proved equal in `c11_kernels_agree`) — and every input tag has been handed on
+exactly once, at the same index. -/
+theorem c11_hilbert_block {α : Type} (o : Ops α) (cd : Codec α) (pair : α → α → Nat) (k : List α → List α → α)
+    (taps : List α) (hnt : 0 < taps.length) (X : List Nat) (T : List Tag) (sched : List (Nat × Nat)) :
+    let B := hilbertBlock o cd pair (fun p q => some (k p q)) taps
+    let r := driveT B X T B.init 0 [] [] sched
+    r.2.1 ≤ X.length ∧ r.2.2.1 = (List.range r.2.1).map (hilOut o cd pair k (firNew taps) X) ∧
+    r.2.2.2.Perm (rng T 0 r.2.1) :=
+  hilbert_drive o cd pair k taps hnt X T sched
 
 /-- **IIR recurrence**: `y[n] = t0·x[n] + Σ_{i=1}^{min(n,L-1)} t_i·y[n-i]`, for every input. -/
 theorem c11_iir_recurrence (taps xs : List R) (ht : taps ≠ []) :
